@@ -337,7 +337,10 @@ class SolverFaultsEngine(EngineBase):
                 sig = -reply if isinstance(reply, int) and reply < 0 else reply
                 signame = signal.Signals(sig).name if isinstance(sig, int) and 0 < sig < 65 else str(reply)
                 trace.append('%2d %s -> WORKER DIED (%s)' % (i, label, signame))
-                replies.append(['died', signame])
+                # what exactly a memory-unsafe operation does to the process (which signal, or none) is not deterministic;
+                # the event digest records only that it was one
+                unsafe = op['op'] == 'reread' or ctx['predicates'].get('expected_size_1') or ctx['predicates'].get('limit_solution_off')
+                replies.append(['memory-unsafe operation'] if unsafe else ['died', signame])
                 bump('probe:worker_died')
                 if op['op'] == 'reread':
                     viol('lifetime', 'reread-after-drop:died',
@@ -356,7 +359,12 @@ class SolverFaultsEngine(EngineBase):
                      'step %d %s did not answer within %.0f s (solver work is bounded by max_num_steps); planet: %s'
                      % (i, label, REPLY_TIMEOUT_S, ctx['stack']), op=op['op'], **ctx['predicates'])
                 break
-            replies.append(reply)
+            if op['op'] == 'reread':
+                replies.append(['memory-unsafe operation'] if reply.get('held') else ['nothing held'])
+            elif ctx['predicates'].get('expected_size_1') or ctx['predicates'].get('limit_solution_off'):
+                replies.append(['memory-unsafe operation'])
+            else:
+                replies.append(reply)
             if 'worker_exception' in reply and (ctx['predicates'].get('expected_size_1') or ctx['predicates'].get('limit_solution_off')):
                 # the worker's own bookkeeping after the call blew up: with these two options the interpreter's heap is
                 # corrupted (C06-K9 / K10), which can surface as anything - same finding as an outright crash
@@ -371,8 +379,14 @@ class SolverFaultsEngine(EngineBase):
                 break
             if op['op'] == 'solve':
                 n_solves += 1
-                self._judge_solve(i, op, label, reply, ctx, viol, bump, trace, failed_solve_on)
-                if ctx['predicates'].get('expected_size_1') or ctx['predicates'].get('limit_solution_off'):
+                tainted = ctx['predicates'].get('expected_size_1') or ctx['predicates'].get('limit_solution_off')
+                if not tainted:
+                    self._judge_solve(i, op, label, reply, ctx, viol, bump, trace, failed_solve_on)
+                else:
+                    # nothing this call reports can be judged: the interpreter's memory may already be corrupted (the
+                    # arrays it hands back, the solution object, even the worker's own bookkeeping)
+                    trace.append('%2d %s -> returned; not judged (memory-unsafe option, C06-K9/K10)' % (i, label))
+                if tainted:
                     # known findings C06-K9 / K10: expected_size=1 corrupts the heap, limit_solution_to_radius=False indexes
                     # past the integrator's own steps - even when the call returns. Nothing observed in this process afterwards can be trusted: end the run and replace the worker.
                     bump('probe:worker_replaced_after_memory_unsafe_option')
